@@ -14,10 +14,34 @@ type pframe struct {
 	Mk   int
 	Viol string
 
+	embed   bool   // build an oversized control frame with a payload that parses as frames
 	payload []byte // what the generator produced
 	onwire  []byte // payload as transmitted (masked if Mk = 1)
 	raw     []byte // complete frame bytes
 	hlen    int    // header bytes (everything before the payload)
+	inner   []byte // oversized control frame: payload of the text frame its own payload spells out
+}
+
+// embedded: a payload of n >= 126 bytes that is itself a sequence of conforming frames: a final text
+// frame of 20 bytes and Pongs as filling. A reader that reports the oversized control frame but
+// does not skip its payload goes on to deliver that text frame.
+func (g *gen) embedded(variant, fid, n int) (p, text []byte) {
+	text = g.payload(variant+7919, fid, 20)
+	p = append(p, 0x81, byte(len(text)))
+	p = append(p, text...)
+	for rest := n - len(p); rest > 0; {
+		m := rest
+		if m > 127 {
+			m = 127
+		}
+		if rest-m == 1 {
+			m--
+		}
+		p = append(p, 0x8A, byte(m-2))
+		p = append(p, make([]byte, m-2)...)
+		rest -= m
+	}
+	return p, text
 }
 
 func opcode(op string, fid int) byte {
@@ -97,6 +121,9 @@ func (f *pframe) build(g *gen, variant int) {
 		return
 	}
 	f.payload = g.payload(variant, f.Fid, f.Len)
+	if f.embed && f.Len > 125 && f.Mk == 0 && (f.Op == "ping" || f.Op == "pong" || f.Op == "close") {
+		f.payload, f.inner = g.embedded(variant, f.Fid, f.Len)
+	}
 	var h [14]byte
 	b0 := opcode(f.Op, f.Fid)
 	if f.Fin == 1 {
